@@ -34,13 +34,19 @@ RULE = ("cases: `stream` = the real rlib_rand::Rng against the Lean LCG (constan
         "same programs under a pseudo-random schedule. Judged per the extracted discipline: thread-local => every thread's priority "
         "stream equals the sequential stream; shared => all priorities together are exactly the first k*m elements of the sequential "
         "stream (multiset) and each thread's stream is a subsequence of it; treap results equal a Vec oracle and the same operations "
-        "run alone. non-trivial = distinct `sched`/`conc` case with at least two threads that both draw, or `stream` case with n >= 2")
+        "run alone. Round 3: a thread's work covers EVERY public operation of the crate it can run on its own treaps — also Treap::from_item, "
+        "Treap::default, TreapNode::split_by/push/update/collect_into called directly, a third treap of bare keys (trait's default update/push), "
+        "and RENDERING (TreePrinter, Debug of Treap and of TreapNode): every rendering is compared with the documented layout computed by hand "
+        "from the public fields and with the rendering of the run alone; `render` = as `conc` with all treaps rendered twice after every draw. "
+        "non-trivial = distinct `sched`/`conc` case with at least two threads that both draw, or `stream` case with n >= 2")
 ASSUMPTIONS = [
     "the hardware/compiler memory model is NOT modelled: the racy discipline is modelled in its most favourable reading (sequentially consistent load and store, no tearing)",
     "'no data race' for thread_local!/Cell, Mutex and AtomicU64::fetch_update rests on Rust's guarantees for these std types (trusted)",
     "the discipline extractor is a syntactic whitelist classifier of treap_node.rs, rand/src/lib.rs and rand/src/lcg.rs; an unrecognised shape is reported as a broken correspondence, never as safe",
     "real thread schedules are chosen by the OS: the stress run samples schedules, it does not enumerate them (the Lean theorems quantify over all schedules of the model)",
     "treap results independent of the priorities drawn: proved for the treap model in C03 (results_independent_of_priorities); here tested against a Vec oracle",
+    "the text a rendering must produce (TreePrinter: `- item` per node, `- [None]` per missing child, 3 columns per level; Debug: items in order, each "
+    "followed by a blank) is an independent brute-force oracle inside the harness (a walk over the public left/right fields); it is not modelled in Lean",
 ]
 TRUSTED_EXTRA = ["std::thread_local!, std::cell::Cell, std::sync::Mutex, std::sync::atomic::AtomicU64 (data-race freedom of the safe disciplines)",
                  "Miri (nightly) data-race detector, when present (thorough tier)"]
@@ -52,7 +58,8 @@ MANIFEST = {
              "every thread the sequential stream; one level down, every interleaving of get/set, lock/read/write/unlock and load/CAS/retry "
              "refines these one-step systems (mutual exclusion included); for the unsynchronised load/store discipline a 2-thread schedule "
              "duplicates a draw and is not serialisable. `c17 : Safe RngDiscipline.current` is stated over the generated discipline, so it "
-             "stops compiling when the source goes back to `static mut`. Tie: extractor + barrier-released stress threads against the "
+             "stops compiling when the source goes back to `static mut`. Tie: extractor + barrier-released stress threads (every public "
+             "operation of the crate incl. rendering, each thread's results compared with the same operations run alone) against the "
              "model and the implementation's own sequential run + Miri."),
     "note": ("Partial: the hardware/compiler memory model is not modelled; data-race freedom of thread_local!/Mutex/atomics is Rust's guarantee "
              "(trusted); the extractor is a syntactic whitelist classifier; real schedules are sampled (stress, Miri), not enumerated."),
@@ -651,7 +658,7 @@ def nontrivial(case, rec):
         return False
     if ts[0] == "stream":
         return int(ts[-1]) >= 2
-    if ts[0] in ("conc", "tie", "deep"):
+    if ts[0] in ("conc", "tie", "deep", "render"):
         return int(ts[2]) >= 2 and int(ts[3]) >= 1
     if ts[0] in ("sched", "fsched") and len(parts) == 3:
         return sum(1 for m in parts[1].split() if int(m) > 0) >= 2
@@ -725,7 +732,7 @@ def stress_failures(ctx):
                 il = fi.readline().rstrip("\n")
                 ml = fm.readline().rstrip("\n")
                 case = case.rstrip("\n")
-                if case.split(" ", 1)[0] not in ("conc", "tie", "deep", "sched", "fsched"):
+                if case.split(" ", 1)[0] not in ("conc", "tie", "deep", "render", "sched", "fsched"):
                     continue
                 rec = {"impl": V.parse_impl(il), "model": V.parse_model(ml)}
                 if rec["impl"] is None or rec["model"] is None:
